@@ -356,9 +356,7 @@ func (e *Env) evalIndex(n *ast.IndexExpr) Term {
 	case *types.Map:
 		m := e.eval(n.X)
 		k := e.eval(n.Index)
-		vs := e.u().sortOf(tt.Elem())
-		d, v, _ := e.st.mapFamsT(tt)
-		return ite(and(neq(m, intLit(0)), e.st.readFam(e.cur, d, m, k)), e.st.readFam(e.cur, v, m, k), e.u().zero(vs))
+		return e.st.mapRead(e.cur, tt, m, k)
 	case *types.Basic:
 		if isStringType(t) {
 			return app(SInt, "gstr.at", e.eval(n.X), e.eval(n.Index))
@@ -432,7 +430,7 @@ func (e *Env) evalCall(n *ast.CallExpr) Term {
 			case SInt: // map
 				mt := e.typeOf(n.Args[0]).Underlying().(*types.Map)
 				_, _, l := e.st.mapFamsT(mt)
-				return ite(eq(a, intLit(0)), intLit(0), e.st.readFam(e.cur, l, a))
+				return e.st.readFam(e.cur, l, a)
 			}
 		case "cap":
 			return slCap(e.eval(n.Args[0]))
@@ -493,7 +491,7 @@ func (e *Env) evalCall(n *ast.CallExpr) Term {
 		mt := e.typeOf(n.Args[0]).Underlying().(*types.Map)
 		d, _, _ := e.st.mapFamsT(mt)
 		m := e.eval(n.Args[0])
-		return and(neq(m, intLit(0)), e.st.readFam(e.cur, d, m, e.eval(n.Args[1])))
+		return e.st.readFam(e.cur, d, m, e.eval(n.Args[1]))
 	case "typeis":
 		v := e.eval(n.Args[0])
 		t := e.typeOf(typeArgs[0])
